@@ -418,7 +418,7 @@ func computeAliases(p *load.Program) {
 		defs := map[types.Object][]ast.Expr{} // := / var definitions with a 1:1 value
 		unstable := map[types.Object]bool{}   // reassigned, inc/dec'd, address taken, multi-value defined
 		rangeVar := map[types.Object]bool{}
-		addrTaken := map[types.Object]bool{}    // &x somewhere, or captured and assigned in a function literal
+		addrTaken := map[types.Object]bool{}         // &x somewhere, or captured and assigned in a function literal
 		varDeps := map[types.Object][]types.Object{} // candidate alias -> reassigned locals its definition reads
 		var curVarDeps []types.Object
 		fieldWritten := map[types.Object]bool{} // fields assigned anywhere in the function
@@ -1183,11 +1183,13 @@ func (c *Ctx) errorDisciplineOn(rule, fname string, info *types.Info, g *cfgx.Gr
 }
 
 // iteratorDiscipline: LevelDB iterators are only read where they are positioned on an entry.
-//   (i)   the boolean result of First/Last/Next/Prev/Seek is not discarded;
-//   (ii)  on the edge where that result is false (directly, negated, or through a flag that is only ever assigned such
-//         results) no Key()/Value() is reachable before the iterator is positioned again;
-//   (iii) every Key()/Value() has a positioning call on every path from the function entry (iterators received as a
-//         parameter or from a call of another function of the module are the caller's business and are skipped).
+//
+//	(i)   the boolean result of First/Last/Next/Prev/Seek is not discarded;
+//	(ii)  on the edge where that result is false (directly, negated, or through a flag that is only ever assigned such
+//	      results) no Key()/Value() is reachable before the iterator is positioned again;
+//	(iii) every Key()/Value() has a positioning call on every path from the function entry (iterators received as a
+//	      parameter or from a call of another function of the module are the caller's business and are skipped).
+//
 // Returns the number of positioning calls inspected.
 func (c *Ctx) iteratorDiscipline(rule string, fi *load.FuncInfo) int {
 	r := c.R
@@ -1584,5 +1586,408 @@ func (c *Ctx) lengthDiscipline(rule string, fi *load.FuncInfo, only func(t *type
 		}
 		return true
 	})
+	return n
+}
+
+// errorIdentity: an error that is compared by identity (== / != / switch case against a package-level error value) or by a
+// type assertion arrives the way it was made: the function that handed it to the comparing function — and, two levels down,
+// the module functions that one got it from — returns errors as they are, not inside a new error built from them
+// (fmt.Errorf("…", err), errors.Join, a wrapping helper). Where the comparison uses errors.Is / errors.As nothing is asked.
+// It returns the number of comparisons looked at.
+func (c *Ctx) errorIdentity(rule string, pkgs []string, only func(sentinel string) bool, detail string) int {
+	r := c.R
+	errT := types.Universe.Lookup("error").Type()
+	isErr := func(t types.Type) bool { return t != nil && types.Identical(t, errT) }
+	// wrapsAt: the position where fn (a module function) returns an error built from another error, or ""
+	type wkey struct {
+		fi  *load.FuncInfo
+		pkg string
+	}
+	seen := map[wkey]string{}
+	// family: the first three elements of an import path ("github.com/syndtr/goleveldb")
+	family := func(p string) string {
+		parts := strings.Split(p, "/")
+		if len(parts) > 3 {
+			parts = parts[:3]
+		}
+		return strings.Join(parts, "/")
+	}
+	var wrapsAt func(fi *load.FuncInfo, depth int, spkg string) string
+	wrapsAt = func(fi *load.FuncInfo, depth int, spkg string) string {
+		if fi == nil || fi.Body() == nil || depth > 2 {
+			return ""
+		}
+		if w, ok := seen[wkey{fi, spkg}]; ok {
+			return w
+		}
+		seen[wkey{fi, spkg}] = ""
+		info := fi.Info()
+		res := ""
+		// couldCarry: the error expression may be (or contain) an error of the sentinel's package: it comes from a module
+		// function, from a function of that package family, or from somewhere that cannot be told
+		var couldCarry func(e ast.Expr, d int) bool
+		couldCarry = func(e ast.Expr, d int) bool {
+			e = ast.Unparen(e)
+			if d > 3 {
+				return true
+			}
+			switch x := e.(type) {
+			case *ast.CallExpr:
+				fn := astx.Callee(info, x)
+				if fn == nil || fn.Pkg() == nil {
+					return true
+				}
+				if c.P.FuncOf(fn) != nil {
+					return true
+				}
+				return family(fn.Pkg().Path()) == family(spkg)
+			case *ast.Ident:
+				o, ok := astx.Obj(info, x).(*types.Var)
+				if !ok || o.IsField() {
+					return true
+				}
+				defs := defsOf(info, fi.Node(), o)
+				if len(defs) == 0 {
+					return true // a parameter
+				}
+				// `v, err := f(); if err != nil { return wrap(err) }`: the definition that reaches the use is the nearest one
+				// before it (error variables are re-used down a function; loops that carry an error around are not the idiom)
+				var nearest ast.Expr
+				for _, dd := range defs {
+					if dd != nil && dd.Pos() < x.Pos() && (nearest == nil || dd.Pos() > nearest.Pos()) {
+						nearest = dd
+					}
+				}
+				if nearest != nil {
+					return ast.Unparen(nearest) != ast.Expr(x) && couldCarry(nearest, d+1)
+				}
+				for _, dd := range defs {
+					if dd != nil && ast.Unparen(dd) != ast.Expr(x) && couldCarry(dd, d+1) {
+						return true
+					}
+				}
+				return false
+			}
+			return true
+		}
+		isWrap := func(e ast.Expr) bool {
+			call, ok := ast.Unparen(e).(*ast.CallExpr)
+			if !ok {
+				return false
+			}
+			fn := astx.Callee(info, call)
+			if fn == nil || fn.Pkg() == nil {
+				return false
+			}
+			p := fn.Pkg().Path()
+			if !(p == "fmt" && fn.Name() == "Errorf") && !(p == "errors" && (fn.Name() == "Join" || strings.HasPrefix(fn.Name(), "Wrap"))) && !strings.HasSuffix(p, "pkg/errors") {
+				return false
+			}
+			for _, a := range call.Args {
+				if isErr(info.TypeOf(a)) && couldCarry(a, 0) {
+					return true
+				}
+			}
+			return false
+		}
+		var check func(e ast.Expr, d int)
+		check = func(e ast.Expr, d int) {
+			if e == nil || d > 3 || res != "" {
+				return
+			}
+			e = ast.Unparen(e)
+			if isWrap(e) {
+				res = c.P.Pos(e.Pos()) + " (" + shortName(fi) + ")"
+				return
+			}
+			switch x := e.(type) {
+			case *ast.Ident:
+				if o, ok := astx.Obj(info, x).(*types.Var); ok && !o.IsField() && o.Pkg() != nil && o.Parent() != o.Pkg().Scope() {
+					for _, dd := range defsOf(info, fi.Node(), o) {
+						if dd != nil && ast.Unparen(dd) != ast.Expr(x) {
+							check(dd, d+1)
+						}
+					}
+				}
+			case *ast.CallExpr:
+				if cal := c.P.FuncOf(astx.Callee(info, x)); cal != nil && cal != fi {
+					if w := wrapsAt(cal, depth+1, spkg); w != "" {
+						res = w
+					}
+				}
+			}
+		}
+		ast.Inspect(fi.Body(), func(n ast.Node) bool {
+			if _, isLit := n.(*ast.FuncLit); isLit {
+				return false
+			}
+			rs, ok := n.(*ast.ReturnStmt)
+			if !ok {
+				return true
+			}
+			for _, e := range rs.Results {
+				if isErr(info.TypeOf(e)) {
+					check(e, 0)
+				} else if call, isCall := ast.Unparen(e).(*ast.CallExpr); isCall && len(rs.Results) == 1 {
+					check(call, 0) // return f(…) of a tuple
+				}
+			}
+			return true
+		})
+		seen[wkey{fi, spkg}] = res
+		return res
+	}
+	n := 0
+	for _, pk := range pkgs {
+		for _, fi := range c.P.FuncsIn(pk) {
+			if fi.Body() == nil {
+				continue
+			}
+			info := fi.Info()
+			sentinelPkg := ""
+			sentinelOf := func(e ast.Expr) string {
+				var id *ast.Ident
+				switch x := ast.Unparen(e).(type) {
+				case *ast.Ident:
+					id = x
+				case *ast.SelectorExpr:
+					id = x.Sel
+				}
+				if id == nil {
+					return ""
+				}
+				v, ok := info.Uses[id].(*types.Var)
+				if !ok || v.IsField() || v.Pkg() == nil || v.Parent() != v.Pkg().Scope() || !isErr(v.Type()) {
+					return ""
+				}
+				sentinelPkg = v.Pkg().Path()
+				return v.Pkg().Name() + "." + v.Name()
+			}
+			judge := func(errExpr ast.Expr, sentinel string, at ast.Node) {
+				spkg := sentinelPkg
+				if only != nil && !only(sentinel) {
+					return
+				}
+				id, ok := ast.Unparen(errExpr).(*ast.Ident)
+				if !ok {
+					return
+				}
+				obj := astx.Obj(info, id)
+				if obj == nil {
+					return
+				}
+				for _, d := range defsOf(info, fi.Node(), obj) {
+					call, ok := ast.Unparen(d).(*ast.CallExpr)
+					if d == nil || !ok {
+						continue
+					}
+					// built from another error right here (a helper that wrapped it was expanded into this function)
+					if fn := astx.Callee(info, call); fn != nil && fn.Pkg() != nil && fn.Pkg().Path() == "fmt" && fn.Name() == "Errorf" {
+						for _, a := range call.Args {
+							if isErr(info.TypeOf(a)) {
+								n++
+								r.Fail(rule, c.attribName(fi), "the error compared with "+sentinel+" arrives unwrapped", c.P.Pos(at.Pos()),
+									"the error that is compared by identity here was put inside a new error at "+c.P.Pos(call.Pos())+": the comparison never holds again — "+detail)
+							}
+						}
+						continue
+					}
+					cal := c.P.FuncOf(astx.Callee(info, call))
+					if cal == nil {
+						continue
+					}
+					n++
+					w := wrapsAt(cal, 0, spkg)
+					r.Check(w == "", rule, c.attribName(fi), "the error compared with "+sentinel+" arrives unwrapped from "+shortName(cal), c.P.Pos(at.Pos()), "the callee returns errors as it got them",
+						"the error is compared by identity here, but "+shortName(cal)+" (or what it calls) hands it on inside a new error built at "+w+": the comparison never holds again — "+detail)
+				}
+			}
+			ast.Inspect(fi.Body(), func(nd ast.Node) bool {
+				switch x := nd.(type) {
+				case *ast.BinaryExpr:
+					if x.Op != token.EQL && x.Op != token.NEQ {
+						return true
+					}
+					if s := sentinelOf(x.Y); s != "" && isErr(info.TypeOf(x.X)) {
+						judge(x.X, s, x)
+					} else if s := sentinelOf(x.X); s != "" && isErr(info.TypeOf(x.Y)) {
+						judge(x.Y, s, x)
+					}
+				case *ast.SwitchStmt:
+					if x.Tag != nil && isErr(info.TypeOf(x.Tag)) {
+						for _, cl := range x.Body.List {
+							for _, ce := range cl.(*ast.CaseClause).List {
+								if s := sentinelOf(ce); s != "" {
+									judge(x.Tag, s, ce)
+								}
+							}
+						}
+					}
+				case *ast.TypeAssertExpr:
+					if x.Type != nil && isErr(info.TypeOf(x.X)) {
+						if n := astx.NamedOf(info.TypeOf(x.Type)); n != nil && n.Obj().Pkg() != nil {
+							sentinelPkg = n.Obj().Pkg().Path()
+							judge(x.X, "type "+astx.Str(x.Type), x)
+						}
+					}
+				}
+				return true
+			})
+		}
+	}
+	return n
+}
+
+// noOwnErrors: every error the function returns was handed to it by something it called (or extracted from a value by a type
+// assertion): it makes no error of its own (errors.New, fmt.Errorf, a package-level error value, an error literal). For a
+// function whose callers act on "it failed" — refuse a configuration, answer 5xx, stop the node — a new way to fail is a new
+// refusal the callers were not written for.
+func (c *Ctx) noOwnErrors(rule string, fi *load.FuncInfo, detail string) int {
+	if fi == nil || fi.Body() == nil {
+		return 0
+	}
+	r := c.R
+	info := fi.Info()
+	errT := types.Universe.Lookup("error").Type()
+	isErr := func(t types.Type) bool { return t != nil && types.Identical(t, errT) }
+	n := 0
+	var own func(e ast.Expr, depth int, seen map[types.Object]bool) string
+	own = func(e ast.Expr, depth int, seen map[types.Object]bool) string {
+		e = ast.Unparen(e)
+		if e == nil || depth > 5 {
+			return ""
+		}
+		switch x := e.(type) {
+		case *ast.CallExpr:
+			fn := astx.Callee(info, x)
+			if fn != nil && fn.Pkg() != nil {
+				p := fn.Pkg().Path()
+				if (p == "fmt" && fn.Name() == "Errorf") || (p == "errors" && (fn.Name() == "New" || fn.Name() == "Join")) {
+					// wrapping an error it was handed is still "handed on" (judged by errorIdentity); a fresh one is not
+					for _, a := range x.Args {
+						if isErr(info.TypeOf(a)) {
+							return own(a, depth+1, seen)
+						}
+					}
+					return "a new error made at " + c.P.Pos(x.Pos())
+				}
+			}
+			return ""
+		case *ast.Ident:
+			if x.Name == "nil" {
+				return ""
+			}
+			o := astx.Obj(info, x)
+			if o == nil {
+				return ""
+			}
+			if v, ok := o.(*types.Var); ok && !v.IsField() && v.Pkg() != nil && v.Parent() == v.Pkg().Scope() {
+				return "the package-level error value " + v.Name()
+			}
+			if seen[o] {
+				return ""
+			}
+			seen[o] = true
+			for _, d := range defsOf(info, fi.Node(), o) {
+				if d == nil || ast.Unparen(d) == ast.Expr(x) {
+					continue
+				}
+				if w := own(d, depth+1, seen); w != "" {
+					return w
+				}
+			}
+			return ""
+		case *ast.SelectorExpr:
+			if v, ok := info.Uses[x.Sel].(*types.Var); ok && !v.IsField() && v.Pkg() != nil && v.Parent() == v.Pkg().Scope() {
+				return "the package-level error value " + astx.Str(x)
+			}
+			return ""
+		case *ast.CompositeLit, *ast.UnaryExpr:
+			return "an error value built at " + c.P.Pos(x.Pos())
+		}
+		return ""
+	}
+	ast.Inspect(fi.Body(), func(nd ast.Node) bool {
+		if _, isLit := nd.(*ast.FuncLit); isLit {
+			return false
+		}
+		rs, ok := nd.(*ast.ReturnStmt)
+		if !ok {
+			return true
+		}
+		for _, e := range rs.Results {
+			if !isErr(info.TypeOf(e)) {
+				continue
+			}
+			n++
+			w := own(e, 0, map[types.Object]bool{})
+			r.Check(w == "", rule, c.attribName(fi), "fails only when something it calls fails", c.P.Pos(rs.Pos()), "the returned error was handed to it",
+				"the function now fails for a reason of its own ("+w+"): "+detail)
+		}
+		return true
+	})
+	return n
+}
+
+// noRetryAfterError: a call that may have had a partial effect when it fails (a Write on a stream: some bytes may be out) is
+// not made again for the same data after it failed: from an edge on which its error is known to be set, the call is not
+// reachable. (A loop that writes one record per iteration leaves through `return err`; a retry loop comes back.)
+func (c *Ctx) noRetryAfterError(rule string, fi *load.FuncInfo, match func(info *types.Info, call *ast.CallExpr) bool, detail string) int {
+	if fi == nil || fi.Body() == nil {
+		return 0
+	}
+	r := c.R
+	n := 0
+	errT := types.Universe.Lookup("error").Type()
+	one := func(info *types.Info, g *cfgx.Graph) {
+		for _, v := range g.Nodes() {
+			as, ok := v.Node.(*ast.AssignStmt)
+			if !ok || len(as.Rhs) != 1 {
+				continue
+			}
+			call, ok := ast.Unparen(as.Rhs[0]).(*ast.CallExpr)
+			if !ok || !match(info, call) {
+				continue
+			}
+			var obj types.Object
+			for _, l := range as.Lhs {
+				if id, ok := l.(*ast.Ident); ok && id.Name != "_" {
+					if o := astx.Obj(info, id); o != nil && types.Identical(o.Type(), errT) {
+						obj = o
+					}
+				}
+			}
+			if obj == nil {
+				continue
+			}
+			n++
+			again := false
+			for _, u := range g.V {
+				for _, e := range u.Succ {
+					if e.Cond == nil {
+						continue
+					}
+					for _, f := range e.Facts() {
+						x, isNil, ok := nilCompare(info, f)
+						if !ok || isNil {
+							continue
+						}
+						if xid, ok := ast.Unparen(x).(*ast.Ident); ok && astx.Obj(info, xid) == obj {
+							// the error of this call? only if the test is reached from the call without another definition
+							if g.Reach(v.ID, nil, nil)[u.ID] && (e.To == v.ID || g.Reach(e.To, nil, nil)[v.ID]) {
+								again = true
+							}
+						}
+					}
+				}
+			}
+			r.Check(!again, rule, c.attribName(fi), "a failed "+astx.Str(call.Fun)+" is not repeated", c.P.Pos(call.Pos()), "the call is not reachable from the edge on which its error is set",
+				"after "+astx.Str(call.Fun)+" failed it is called again with the same data: what the failed call already put out is put out twice — "+detail)
+		}
+	}
+	one(fi.Info(), c.Graph(fi))
+	for k, lit := range funcLitsIn(fi.Body()) {
+		one(fi.Info(), c.LitGraph(fi.Name()+"$retrylit"+itoa(k), lit, fi.Info()))
+	}
 	return n
 }
